@@ -211,7 +211,7 @@ func makeSource[T num, A arr[T, A]](k kit[T, A], layout int, shape []int, vals [
 		}
 		parent := k.newGo(pdims)
 		pidx := make([]int, rank)
-		for i := 0; i < product(pdims); i++ {
+		for i, np := 0, product(pdims); i < np; i++ {
 			parent.Set(pidx, T(7))
 			for d := rank - 1; d >= 0; d-- {
 				pidx[d]++
@@ -287,9 +287,11 @@ func engineH5(rc *RunCtx) *Outcome {
 // file names: the usual pair, the same base name in two directories, relative names, one name a
 // prefix of the other, a blank in a directory name
 var h5FilePairs = [][]string{{"/sim/a.h5", "/sim/b.h5"}, {"/sim/a.h5", "/sim/b.h5"}, {"/one/data.h5", "/two/data.h5"}, {"a.h5", "./b.h5"},
-	{"/sim/x.h5", "/sim/x.h5.bak"}, {"/my data/a.h5", "/my data/b.h5"}}
+	{"/sim/x.h5", "/sim/x.h5.bak"}, {"/my data/a.h5", "/my data/b.h5"}, {"/sim/run$1.h5", "/sim/run$2.h5"}, {"/sim/${HOME}.h5", "/sim/$HOME.h5"}}
 
-var h5Paths = []string{"/d0", "/g/d1", "/g/h/d2", "/g/d3"}
+// (the fifth path - sequential histories only - lies in a group whose name differs from an existing
+// sibling's only in letter case: HDF5 names are case sensitive)
+var h5Paths = []string{"/d0", "/g/d1", "/g/h/d2", "/g/d3", "/G/d1"}
 
 func drawShape(w *simrt.Tape, allowZero bool) []int {
 	rank := 1 + w.Choose(3)
